@@ -140,6 +140,9 @@ func (c *Conn) ReadFrom(r io.Reader) (n int64, err error) {
 
 	// if there is no available buffer, create one.
 	if !bufNode.recyclable() || cap(bufNode.buf) == 0 {
+		// Never carve the buffer out of the tail of the current (non-recyclable)
+		// node: Flush does not reset such a node, so it could not be refilled.
+		c.outputBuffer.len = 0
 		c.Malloc(block4k)
 		c.outputBuffer.write.Reset()
 		c.outputBuffer.len = cap(c.outputBuffer.write.buf)
